@@ -190,6 +190,10 @@ func corpus(prop string) []NamedScenario {
 	in("accept-follow", d, func(s *Std) J {
 		return s.act("Accept", J{"object": J{"type": "Follow", "id": s.Follow1, "actor": s.Alice.ID, "object": s.Dave}})
 	})
+	in("accept-follow-odd-id", d, func(s *Std) J {
+		// a hostile peer labels the Follow it "accepts" with an IRI the request itself works with (the receiving inbox)
+		return s.act("Accept", J{"object": J{"type": "Follow", "id": s.Alice.Inbox, "actor": s.Alice.ID, "object": s.Dave}})
+	})
 	in("reject-follow", d, func(s *Std) J {
 		return s.act("Reject", J{"object": J{"type": "Follow", "id": s.Follow1, "actor": s.Alice.ID, "object": s.Dave}})
 	})
